@@ -1040,10 +1040,10 @@ Section NwkMgmt.
   (** every management operation other than the removal of [K] leaves the counter table of
       (K, sender) as it is *)
   Lemma mgmt_preserves_table hs m K a :
-    (forall K', m = RemoveKey K' -> K' <> K) ->
+    (forall K', m = RemoveKey K' -> K' <> K) -> m <> ClearKeys ->
     stored_k (fst (apply_mgmt hs m)) K a = stored_k (fst hs) K a.
   Proof.
-    destruct hs as [st act]. intros Hm. destruct m as [key seq|seq|key]; cbn [apply_mgmt fst].
+    destruct hs as [st act]. intros Hm Hc. destruct m as [key seq|seq|key|]; cbn [apply_mgmt fst]; [| | |contradiction].
     - destruct (has_key key (n_mats st)) eqn:Eh; [reflexivity|].
       unfold stored_k. cbn [with_mats n_mats fst].
       destruct (bytes_eqb key K) eqn:Ek.
@@ -1062,7 +1062,7 @@ Section NwkMgmt.
 
   Lemma mgmt_preserves_nodup hs m : keys_nodup (fst hs) -> keys_nodup (fst (apply_mgmt hs m)).
   Proof.
-    destruct hs as [st act]. unfold keys_nodup. intros Hnd. destruct m as [key seq|seq|key]; cbn [apply_mgmt fst].
+    destruct hs as [st act]. unfold keys_nodup. intros Hnd. destruct m as [key seq|seq|key|]; cbn [apply_mgmt fst]; [| | |constructor].
     - destruct (has_key key (n_mats st)) eqn:Eh; [exact Hnd|].
       cbn [with_mats n_mats fst]. rewrite map_app. cbn [map m_key].
       apply nodup_snoc; [exact Hnd|apply has_key_in; exact Eh].
@@ -1072,7 +1072,7 @@ Section NwkMgmt.
 
   Lemma mgmt_flags hs m : n_all_fresh (fst (apply_mgmt hs m)) = n_all_fresh (fst hs).
   Proof.
-    destruct hs as [st act]. destruct m as [key seq|seq|key]; cbn [apply_mgmt fst]; try reflexivity.
+    destruct hs as [st act]. destruct m as [key seq|seq|key|]; cbn [apply_mgmt fst]; try reflexivity.
     destruct (has_key key (n_mats st)); reflexivity.
   Qed.
 
@@ -1146,7 +1146,8 @@ Section NwkMgmt.
       + apply mgmt_preserves_nodup. exact Hnd.
       + exact Hnr'.
       + intros a. rewrite HT. symmetry. apply mgmt_preserves_table.
-        intros K' ->. exact Hit.
+        * intros K' ->. exact Hit.
+        * intros ->. exact Hit.
   Qed.
 
   (** freshness over histories of PDUs AND management operations: for a key that the history
@@ -1217,3 +1218,68 @@ Section Reject.
     rewrite Hd in *. cbn [status_of] in Hs. subst b. rewrite Hk. reflexivity.
   Qed.
 End Reject.
+
+(** * truncation: a frame whose trailer is shorter than the MIC length is rejected *)
+Section Truncation.
+  Variable E : bytes -> bytes -> bytes.
+  Hypothesis E_length : forall k b, length (E k b) = 16%nat.
+
+  (** the length condition of the MIC comparison, explicitly: acceptance forces the received MIC
+      to have exactly M bytes *)
+  Lemma accepted_mic_length key f : in_scope (f_lvl f) -> nonce_ok f ->
+    status_of (decrypt E key f) = true -> length (recv_mic f) = sp_M (params f).
+  Proof.
+    intros Hs Hn Ha. apply (accept_iff_tag E key f Hs Hn) in Ha. rewrite Ha.
+    destruct (scope_params f Hs) as (_ & _ & Hle & _). apply ccm_tag_length; assumption.
+  Qed.
+
+  Lemma short_mic_rejected key f : in_scope (f_lvl f) -> nonce_ok f ->
+    length (recv_mic f) <> sp_M (params f) -> status_of (decrypt E key f) = false.
+  Proof.
+    intros Hs Hn Hl. destruct (status_of (decrypt E key f)) eqn:Ea; [|reflexivity].
+    exfalso. apply Hl. apply (accepted_mic_length key f Hs Hn Ea).
+  Qed.
+
+  Lemma py_take_last_length n (l : bytes) : (length (py_take_last n l) <= length l)%nat.
+  Proof. unfold py_take_last. destruct n; [lia|]. rewrite skipn_length. lia. Qed.
+
+  Lemma recv_mic_le_trailer f : in_scope (f_lvl f) ->
+    (length (recv_mic f) <= length (f_data f) + length (f_mic f))%nat.
+  Proof.
+    intros Hs. destruct (scope_params f Hs) as (Henc & _ & _ & _ & Hp & _).
+    unfold recv_mic, extract. rewrite Henc.
+    assert (Hd : f_data (patch f) = f_data f /\ f_mic (patch f) = f_mic f)
+      by (rewrite Hp; destruct (f_lvl f =? 0); split; reflexivity).
+    destruct Hd as [Hd Hm]. destruct (mic_absent_patched _ _); cbn [snd].
+    - pose proof (py_take_last_length (sp_M (params f)) (f_data (patch f))). rewrite Hd in *. lia.
+    - rewrite Hm. lia.
+  Qed.
+
+  (** every key, level 0 (on-air) / 5 / 6 / 7: fewer than M bytes after the security header
+      (in particular none at all: no payload, no MIC) => rejected *)
+  Lemma truncated_rejected key f : in_scope (f_lvl f) -> nonce_ok f ->
+    (length (f_data f) + length (f_mic f) < sp_M (params f))%nat -> status_of (decrypt E key f) = false.
+  Proof.
+    intros Hs Hn Hl. apply short_mic_rejected; try assumption.
+    pose proof (recv_mic_le_trailer f Hs). lia.
+  Qed.
+
+  (** the same at the integrity-only levels (EXTENSION) *)
+  Lemma short_mic_rejected_mic_only key f : mic_scope (f_lvl f) -> (7 <= length (gen_nonce f))%nat ->
+    length (recv_mic_only f) <> sp_M (params f) -> status_of (decrypt E key f) = false.
+  Proof.
+    intros Hs Hn Hl. destruct (status_of (decrypt E key f)) eqn:Ea; [|reflexivity].
+    exfalso. apply Hl. apply (accept_iff_tag_mic E key f Hs Hn) in Ea. rewrite Ea.
+    destruct (mic_scope_params f Hs) as (_ & _ & Hle & _). apply ccm_tag_length; assumption.
+  Qed.
+End Truncation.
+
+(** * the receive step uses the key of the material CURRENTLY selected *)
+Lemma nwk_accepts_under_current_key E st f svc f' st' :
+  nwk_step E st (Secured f) = (UpSecured svc f', st') ->
+  exists k m, kseq_of f = Some k /\ select k (n_mats st) = Some m /\ decrypt E (m_key m) f = Ok (f', true).
+Proof.
+  cbn [nwk_step]. destruct (nwk_decrypt E st f) as [g st1| |cls] eqn:Ed; try discriminate.
+  intros H. injection H as _ <- <-. apply nwk_decrypt_ok in Ed.
+  destruct Ed as (k & m & Hk & Hs & _ & Hd & _). exists k, m. repeat split; assumption.
+Qed.
